@@ -22,16 +22,53 @@ def intervals(r, lo=-4, hi=40, maxn=6):
     return out
 
 
+I64_ANCHORS = [-2**63, -2**63 + 40, -2**31, -3, 0, 2**31, 2**62, 2**63 - 60]
+U64_ANCHORS = [0, 5, 2**31, 2**32 - 8, 2**62, 2**63 - 20, 2**63, 2**63 + 2**62, 2**64 - 60]
+
+
+def intervals_wide(r, unsigned, maxn=6):
+    """Intervals spread over the whole element type (begins more than 2^63 apart, next to the type's limits)."""
+    lo, hi = (0, 2**64 - 1) if unsigned else (-2**63, 2**63 - 1)
+    anchors = U64_ANCHORS if unsigned else I64_ANCHORS
+    n = r.choice([1, 2, 2, 3, 4, 5, maxn])
+    out = []
+    for _ in range(n):
+        k = r.random()
+        if out and k < 0.2:
+            b = out[-1][1]
+        elif out and k < 0.3:
+            b = out[-1][0]
+        else:
+            b = r.choice(anchors) + r.randint(0, 40)
+        b = min(max(b, lo), hi - 1)
+        e = min(b + r.choice([1, 1, 2, 3, 5, 8, 13, 30]), hi)
+        out.append((b, e))
+    r.shuffle(out)
+    return out
+
+
 def fmt_intervals(l):
     return ("%d " % len(l) + " ".join("%d %d" % (b, e) for b, e in l)).strip()
 
 
 def g_inew(r):
+    k = r.random()
+    if k < 0.15:
+        return "inew " + fmt_intervals(intervals_wide(r, False))
+    if k < 0.35:
+        return "inewu " + fmt_intervals(intervals_wide(r, True))
     return "inew " + fmt_intervals(intervals(r))
 
 
 def g_ibin(r):
     op = r.choice(["iunion", "icompl", "iinter"])
+    k = r.random()
+    if k < 0.25:
+        unsigned = k < 0.15
+        a, b = intervals_wide(r, unsigned), intervals_wide(r, unsigned)
+        if r.random() < 0.1:
+            b = []
+        return "%s%s %s %s" % (op, "u" if unsigned else "", fmt_intervals(a), fmt_intervals(b))
     a = intervals(r)
     b = intervals(r)
     if r.random() < 0.1:
